@@ -24,6 +24,7 @@ import (
 	"github.com/google/uuid"
 
 	"github.com/hyperjumptech/grule-rule-engine/pkg"
+	"github.com/hyperjumptech/grule-rule-engine/pkg/simhook"
 )
 
 // NewKnowledgeLibrary create a new instance KnowledgeLibrary
@@ -67,6 +68,9 @@ func (lib *KnowledgeLibrary) RemoveRuleEntry(ruleName, name string, version stri
 		ruleEntry, ok := lib.Library[nameVersion].RuleEntries[ruleName]
 		if ok {
 			lib.Library[nameVersion].RuleEntries[ruleName].RuleName = fmt.Sprintf("Deleted_%s", uuid.New().String())
+			if id, ok := simhook.NextID(); ok { // verif hook: never taken unless built with -tags verif
+				lib.Library[nameVersion].RuleEntries[ruleName].RuleName = "Deleted_" + id
+			}
 			lib.Library[nameVersion].RuleEntries[ruleName].Deleted = true
 			delete(lib.Library[nameVersion].RuleEntries, ruleName)
 			lib.Library[nameVersion].RuleEntries[ruleEntry.RuleName] = ruleEntry
@@ -222,6 +226,7 @@ func (e *KnowledgeBase) Clone(cloneTable *pkg.CloneTable) (*KnowledgeBase, error
 		RuleEntries: make(map[string]*RuleEntry),
 	}
 	if e.RuleEntries != nil {
+		e := simKBView("kb.clone", e) // verif hook: identity unless built with -tags verif
 		for k, entry := range e.RuleEntries {
 			if cloneTable.IsCloned(entry.AstID) {
 				clone.RuleEntries[k] = cloneTable.Records[entry.AstID].CloneInstance.(*RuleEntry)
